@@ -51,6 +51,24 @@ const RESERVED: &[&str] = &[
 /// From https://developer.mozilla.org/en-US/docs/Web/JavaScript/Reference/Global_Objects.
 ///
 /// If you create a class from these, JS will error. So we throw an error if that happens.
+/// Identifiers that cannot be used as a binding (parameter, variable) in strict-mode / module code,
+/// on top of [`RESERVED`].
+const STRICT_MODE_RESERVED_BINDINGS: &[&str] = &[
+    "arguments",
+    "await",
+    "enum",
+    "eval",
+    "implements",
+    "interface",
+    "let",
+    "package",
+    "private",
+    "protected",
+    "public",
+    "static",
+    "yield",
+];
+
 const RESERVED_TYPES: &[&str] = &["Infinity", "NaN"];
 
 /// Helper class for us to format JS identifiers from the HIR.
@@ -291,6 +309,17 @@ impl<'tcx> JSFormatter<'tcx> {
 
     pub fn fmt_param_name<'a>(&self, param_name: &'a str) -> Cow<'a, str> {
         param_name.to_lower_camel_case().into()
+    }
+
+    /// A method parameter is a binding, so (unlike a struct field, which is a property name) it
+    /// cannot be a reserved word; modules are strict-mode code, which reserves a few more.
+    pub fn fmt_method_param_name<'a>(&self, param_name: &'a str) -> Cow<'a, str> {
+        let name = self.fmt_param_name(param_name);
+        if RESERVED.contains(&&*name) || STRICT_MODE_RESERVED_BINDINGS.contains(&&*name) {
+            format!("{name}_").into()
+        } else {
+            name
+        }
     }
 
     pub fn fmt_lifetime_edge_array(
